@@ -3,7 +3,13 @@ package main
 import (
 	"fmt"
 	"math/rand"
+	"reflect"
+	"strconv"
 	"strings"
+
+	"github.com/Fantom-foundation/lachesis-base/kvdb"
+	"github.com/Fantom-foundation/lachesis-base/kvdb/memorydb"
+	"github.com/Fantom-foundation/lachesis-base/kvdb/table"
 
 	"verifharness/kvh"
 	"verifharness/vu"
@@ -73,6 +79,16 @@ func c24Gen(r *rand.Rand, n int, tier string, emit func(input ...string)) {
 			emit(c24IncCase([]byte{byte(a), 0xff})...)
 		}
 	}
+	// reflect.go: tag lists for OpenTables / MigrateTables (uniqKeys)
+	tagPool := []string{"-", "2d", "61", "6162", "6163", "62", "00", "00ff", "ff", "ffff", "6100", "c3a9"}
+	for i := 0; i < n/10; i++ {
+		k := 1 + r.Intn(4)
+		tags := []string{"UNIQ"}
+		for j := 0; j < k; j++ {
+			tags = append(tags, tagPool[r.Intn(len(tagPool))])
+		}
+		emit(tags...)
+	}
 	nInc := n / 4
 	for i := 0; i < nInc; i++ {
 		l := 2 + r.Intn(7)
@@ -99,7 +115,58 @@ func c24Gen(r *rand.Rand, n int, tier string, emit func(input ...string)) {
 	}
 }
 
+// c24Uniq runs reflect.go on a struct type built at run time: one kvdb.Store field per tag.
+// OpenTables reports uniqKeys.Check(); MigrateTables creates the tables, through which value <i>
+// is written at key 6b; the raw content of the store is the observation.
+func c24Uniq(tags []string) []string {
+	storeT := reflect.TypeOf((*kvdb.Store)(nil)).Elem()
+	var fields []reflect.StructField
+	for i, t := range tags {
+		fields = append(fields, reflect.StructField{
+			Name: "F" + strconv.Itoa(i), Type: storeT,
+			Tag: reflect.StructTag("table:" + strconv.Quote(string(kvh.Bytes(t)))),
+		})
+	}
+	st := reflect.StructOf(fields)
+	obs := []string{"U"}
+	opened := reflect.New(st)
+	if err := table.OpenTables(opened.Interface(), memorydb.NewProducer(""), "base"); err != nil {
+		obs = append(obs, "err")
+		vu.Stat("uniq_err")
+	} else {
+		obs = append(obs, "ok")
+		vu.Stat("uniq_ok")
+	}
+	db := memorydb.New()
+	mig := reflect.New(st)
+	table.MigrateTables(mig.Interface(), db)
+	n := 0
+	for i := range tags {
+		f := mig.Elem().Field(i)
+		if f.IsNil() {
+			continue
+		}
+		n++
+		if err := f.Interface().(kvdb.Store).Put([]byte{0x6b}, []byte{byte(n)}); err != nil {
+			obs = append(obs, "ERR:put")
+		}
+	}
+	it := db.NewIterator(nil, nil)
+	var kv []string
+	cnt := 0
+	for it.Next() {
+		kv = append(kv, kvh.Tok(append([]byte{}, it.Key()...)), kvh.Tok(append([]byte{}, it.Value()...)))
+		cnt++
+	}
+	it.Release()
+	obs = append(obs, "I", strconv.Itoa(cnt))
+	return append(obs, kv...)
+}
+
 func c24Run(input []string) []string {
+	if len(input) > 0 && input[0] == "UNIQ" {
+		return c24Uniq(input[1:])
+	}
 	return kvh.RunCase(input, vu.Stat)
 }
 
